@@ -145,6 +145,7 @@ def engine_event_correspondence(rep, binp, seed, n, real=False):
         bad, t0, lossy_per_history = [], time.time(), []
     ev = {'histories': len(cases), 'disagreements': len(bad), 'model_seconds': round(time.time() - t0, 1)}
     if real:
+        ev['histories_skipped (a key that does not match itself cannot be probed)'] = len([l for l in out.split('\n') if l.startswith('SKIPPED ')])
         ev['lossy_hits_in_the_model (ghost counter: answered by an entry stored for another complete input)'] = sum(lossy_per_history)
         ev['histories_with_a_lossy_hit'] = sum(1 for x in lossy_per_history if x > 0)
         ev['distinct_inputs'] = sum(c[1 + 2 * c[0]] for c in cases)
